@@ -10,6 +10,7 @@
 #include <stdio.h>
 #include <stdlib.h>
 #include <string.h>
+#include <unistd.h>
 
 #define MAXL 4096
 static char **g_lines; static int g_n, g_pos;
@@ -35,6 +36,7 @@ void __wrap_endgrent(void) { g_pos = 0; }
 int __wrap_getgrent_r(struct group *gr, char *buf, size_t buflen, struct group **res) {
     char *line, *sp, *names; size_t need; int nmem = 0, i; char *p, **mem, *s;
     *res = NULL;
+    { const char *f = getenv("VERIF_NSS_FAIL"); if (f && access(f, F_OK) == 0) return EIO; }   /* scan fails */
     if (!g_lines || g_pos >= g_n) return ENOENT;
     line = g_lines[g_pos];
     sp = strchr(line, ' ');
